@@ -33,6 +33,9 @@ type c16Build struct {
 	Base  *store.Store // pre-existing blocks (entry targets)
 	Run   func(ls *ipld.LinkSystem) (ipld.Link, uint64, error)
 	Quick bool // quick builder: its methods panic on a failed write; a panic or an error both count as reporting it
+	// ErrPaths: for an import from disk, places inside the imported tree; the block store may live in
+	// one of them (a repository inside the project directory), and its failures then name paths there
+	ErrPaths []string
 }
 
 // installOrderHook makes the store check, at every commit, that every link of
@@ -158,6 +161,11 @@ func checkBuild(c *mon.Case, b c16Build) {
 			}
 			// rotate the error kind: a plain error, and kinds a wrapper might take for success or end of input
 			fs.FailErr = []error{nil, &iofs.PathError{Op: "open", Path: "/blocks/x", Err: syscall.EEXIST}, io.ErrShortWrite, context.Canceled, iofs.ErrExist, store.ErrNotFound{}, &iofs.PathError{Op: "open", Path: "/blocks/x", Err: syscall.ENOENT}, io.EOF}[k%8]
+			if len(b.ErrPaths) > 0 && k%2 == 1 {
+				// the failing store sits inside the tree that is being imported
+				fs.FailErr = &iofs.PathError{Op: []string{"open", "rename", "mkdir"}[k%3], Path: filepath.Join(b.ErrPaths[(k/2)%len(b.ErrPaths)], ".repo", "blocks", "AF", fmt.Sprintf("tmp-%d", k)), Err: []error{syscall.ENOENT, iofs.ErrNotExist}[(k/2)%2]}
+				c.Count("faults_naming_paths_inside_the_imported_tree", 1)
+			}
 			var fl ipld.Link
 			var ferr error
 			if !c.Guard(fmt.Sprintf("%s with %s #%d failing", b.Name, p.kind, k), func() {
@@ -218,6 +226,19 @@ func TestC16(t *testing.T) {
 		}
 	}
 	fileB(2, "size-4", 40, "zero")
+	// the same builds through a caller's encoders that stream a block into the writer in the four usual
+	// ways (Write in pieces, WriteString, io.Copy from a plain reader, io.Copy from a bytes.Reader): a
+	// failing Write has to surface whichever way the bytes travel
+	for style := 0; style < 4; style++ {
+		style := style
+		builds = append(builds, func(c *mon.Case) c16Build {
+			content := gen.Content(c.Rand(), "rand", 43)
+			return c16Build{Name: fmt.Sprintf("file w3 size-4 43 bytes through encoders of style %d", style), Kind: fmt.Sprintf("file-styled%d", style), Base: store.New(), Run: func(ls *ipld.LinkSystem) (l ipld.Link, sz uint64, err error) {
+				withWidth(3, func() { l, sz, err = builder.BuildUnixFSFile(bytes.NewReader(content), "size-4", store.StyledEncoders(ls, 0, style)) })
+				return
+			}}
+		})
+	}
 	fileB(174, "size-1", 176, "rand")
 	fileB(3, "rabin-16-32-64", 900, "rand")
 	if !r.Quick() {
@@ -335,7 +356,7 @@ func TestC16(t *testing.T) {
 			for k := 0; k < 3+rr.Intn(6); k++ {
 				os.WriteFile(filepath.Join(root, "a", "b", fmt.Sprintf("f%d", k)), gen.Content(rr, "rand", rr.Intn(50)), 0o644)
 			}
-			return c16Build{Name: fmt.Sprintf("recursive import #%d", i), Kind: "recursive", Base: store.New(), Run: func(ls *ipld.LinkSystem) (ipld.Link, uint64, error) {
+			return c16Build{Name: fmt.Sprintf("recursive import #%d", i), Kind: "recursive", Base: store.New(), ErrPaths: []string{root, filepath.Join(root, "a"), filepath.Join(root, "a", "b"), filepath.Join(root, "a", "big"), filepath.Join(root, "f1"), filepath.Join(root, "empty-dir")}, Run: func(ls *ipld.LinkSystem) (ipld.Link, uint64, error) {
 				return builder.BuildUnixFSRecursive(root, ls)
 			}}
 		})
